@@ -63,6 +63,7 @@ type keyCase struct {
 	DECCKM  bool   `json:"decckm"`
 	DECKPAM bool   `json:"deckpam"`
 	Written string `json:"written,omitempty"`
+	Locks   string `json:"locks,omitempty"`
 }
 
 var named = []struct {
@@ -120,7 +121,25 @@ func keyCases() []keyCase {
 	return out
 }
 
+var setModesCalls int
+
+// setModes sends the mode changes; every other call merges adjacent DECSET /
+// DECRST sequences into one sequence with several parameters (CSI ? a;b;c l),
+// as applications do when they leave.
 func setModes(m *term.Model, seqs ...string) {
+	setModesCalls++
+	if setModesCalls%2 == 0 {
+		var merged []string
+		for _, q := range seqs {
+			if n := len(merged); n > 0 && strings.HasPrefix(q, "\x1b[?") && strings.HasPrefix(merged[n-1], "\x1b[?") && q[len(q)-1] == merged[n-1][len(merged[n-1])-1] {
+				prev := merged[n-1]
+				merged[n-1] = prev[:len(prev)-1] + ";" + q[3:]
+				continue
+			}
+			merged = append(merged, q)
+		}
+		seqs = merged
+	}
 	term.VerifFeed(m, []byte(strings.Join(seqs, "")), nil)
 	term.VerifTakeReplies(m)
 }
@@ -167,6 +186,18 @@ func runKeys(w *harness.W, s spec) {
 			}
 			setModes(m, onoff(1, kc.DECCKM), kp)
 			k := vaxis.Key{Keycode: kc.Keycode, Modifiers: vaxis.ModifierMask(kc.Mods), Text: kc.Text}
+			// lock states reported by a host speaking the kitty protocol are not
+			// part of the chord: same bytes with Caps Lock / Num Lock on
+			if kc.Keycode >= 0x7f || kc.Keycode < 0x20 {
+				switch i % 3 {
+				case 1:
+					k.Modifiers |= vaxis.ModCapsLock
+					kc.Locks = "caps"
+				case 2:
+					k.Modifiers |= vaxis.ModNumLock
+					kc.Locks = "num"
+				}
+			}
 			if kc.Mods&mShift != 0 && kc.Text != "" {
 				k.ShiftedCode = []rune(kc.Text)[0]
 			}
@@ -357,7 +388,7 @@ func runMouse(w *harness.W, s spec) {
 		var raw [][]byte
 		for i := off; i < end; i++ {
 			mc := &cases[i]
-			setModes(m, onoff(1000, mc.M1000), onoff(1002, mc.M1002), onoff(1003, mc.M1003), onoff(1006, mc.M1006), onoff(1049, mc.AltScreen), onoff(1007, mc.AltScroll))
+			setModes(m, onoff(1049, mc.AltScreen), onoff(1000, mc.M1000), onoff(1002, mc.M1002), onoff(1003, mc.M1003), onoff(1006, mc.M1006), onoff(1007, mc.AltScroll))
 			ev := vaxis.Mouse{Button: vaxis.MouseButton(mc.Button), Col: mc.Col, Row: mc.Row, EventType: vaxis.EventType(mc.Type)}
 			val, stack, panicked := harness.Recover(func() { m.Update(ev) })
 			if panicked {
@@ -443,7 +474,7 @@ func runMouse(w *harness.W, s spec) {
 	}
 	// paste gating
 	for _, on := range []bool{false, true} {
-		setModes(m, onoff(2004, on))
+		setModes(m, onoff(1049, false), onoff(2004, on))
 		for _, ev := range []vaxis.Event{vaxis.PasteStartEvent{}, vaxis.PasteEndEvent{}} {
 			m.Update(ev)
 			b := term.VerifTakeReplies(m)
@@ -458,6 +489,44 @@ func runMouse(w *harness.W, s spec) {
 				if !ok || len(evs[0]) != 1 || fmt.Sprintf("%T", evs[0][0]) != fmt.Sprintf("%T", ev) {
 					w.Violation("paste:altered", fmt.Sprintf("%T written as %q came back as %#v", ev, b, evs), map[string]any{"mode2004": on}, fmt.Sprintf("%#v", evs), fmt.Sprintf("%T", ev))
 				}
+			}
+		}
+	}
+	// an application leaving: everything it enabled is reset in ONE sequence
+	// (CSI ? a;b;c l), with 1049 at every position, from the primary and from
+	// the alternate screen; afterwards nothing may be written
+	enabled := []int{1000, 1002, 1003, 1006, 2004}
+	for pos := 0; pos <= len(enabled); pos++ {
+		for _, alt := range []bool{false, true} {
+			var on []string
+			for _, md := range enabled {
+				on = append(on, fmt.Sprint(md))
+			}
+			if alt {
+				on = append(on, "1049")
+			}
+			var off []string
+			for i, md := range enabled {
+				if i == pos {
+					off = append(off, "1049")
+				}
+				off = append(off, fmt.Sprint(md))
+			}
+			if pos == len(enabled) {
+				off = append(off, "1049")
+			}
+			leave := "\x1b[?" + strings.Join(off, ";") + "l"
+			term.VerifFeed(m, []byte("\x1b[?1049l\x1b[?"+strings.Join(on, ";")+"h"+leave), nil)
+			term.VerifTakeReplies(m)
+			var wrote []byte
+			for _, ev := range []vaxis.Event{vaxis.Mouse{Button: 0, Col: 3, Row: 2, EventType: vaxis.EventPress}, vaxis.Mouse{Button: 0, Col: 3, Row: 2, EventType: vaxis.EventRelease}, vaxis.Mouse{Button: 3, Col: 4, Row: 2, EventType: vaxis.EventMotion}, vaxis.PasteStartEvent{}, vaxis.PasteEndEvent{}} {
+				m.Update(ev)
+				wrote = append(wrote, term.VerifTakeReplies(m)...)
+			}
+			w.Case(fmt.Sprintf("leave|%q|%v", leave, alt))
+			w.Count("combined_reset_cases", 1)
+			if len(wrote) > 0 {
+				w.Violation("gating:after-combined-reset", fmt.Sprintf("the child enabled %v (alternate screen: %v) and reset everything with %q; mouse and paste events were still written: %q", enabled, alt, leave, wrote), map[string]any{"leave": leave, "alt_screen": alt}, fmt.Sprintf("%q", wrote), "nothing")
 			}
 		}
 	}
